@@ -5,7 +5,8 @@ import ast
 
 from fdlstatic import cfg as cfg_lib
 from fdlstatic.ctx import Ctx, kwarg
-from fdlstatic.model import AnalysisError, unparse, walk_function, walk_stmts
+from fdlstatic.model import norm_text, AnalysisError, unparse, walk_function, walk_stmts
+from fdlstatic import roles
 from fdlstatic.report import RuleSet
 from fdlstatic.rules import c14
 
@@ -166,15 +167,50 @@ def run(ctx: Ctx, rs: RuleSet, tier: str):
   eq = [c for c in walk_function(m.node) if isinstance(c, ast.Compare) and
         isinstance(c.ops[0], (ast.Eq, ast.NotEq, ast.Is, ast.IsNot)) and
         mentions(c, 'fn_or_cls', node)]
-  rs.check(bool(eq), rule, f'{m.qualname}:equality',
-           'the selected callable is compared with the node\'s callable: ' +
-           ', '.join(unparse(c) for c in eq), ctx.loc(m, m.node))
+  by_identity = [c for c in eq if isinstance(c.ops[0], (ast.Is, ast.IsNot))]
+  rs.check(bool(eq) and not by_identity, rule, f'{m.qualname}:equality',
+           'the selected callable is compared with the node\'s callable by '
+           'equality: ' + ', '.join(unparse(c) for c in eq)
+           if eq and not by_identity else
+           (f'`{unparse(by_identity[0])}` compares the callables by identity: '
+            'bound methods and classmethods (`Tokenizer.from_file`) are equal '
+            'but a new object on every attribute access, so nothing configured '
+            'with them is ever selected' if by_identity else
+            'no comparison of the callables found'), ctx.loc(m, m.node))
   rets = [r for r in walk_function(m.node) if isinstance(r, ast.Return)]
   has_true = any(unparse(r.value) == 'True' for r in rets) or any(
       not isinstance(r.value, ast.Constant) for r in rets)
   rs.check(has_true and len(rets) >= 2, rule, f'{m.qualname}:returns',
            f'returns {[unparse(r.value)[:40] for r in rets]}',
            ctx.loc(m, m.node), nontrivial=False)
+
+  # ---- tag iteration: value, else default, else NO_VALUE
+  rule_t = 'READ.tag-iteration'
+  rs.declare(rule_t, 'a tag selection yields what the Buildable reports for '
+             'the argument (its read API applies defaults), never the raw '
+             'argument store', 2)
+  ti = ctx.func('fiddle._src.selectors.TagSelection.__iter__')
+  ys = [n for n in walk_function(ti.node) if isinstance(n, ast.Yield) and
+        n.value is not None]
+  if len(ys) < 2:
+    raise AnalysisError('TagSelection.__iter__: expected a yield per key kind')
+  for y in ys:
+    raw = [x for x in roles.expand(ti, y.value, 2) if isinstance(
+        x, ast.Attribute) and x.attr == '__arguments__']
+    via_api = any(
+        (isinstance(x, ast.Call) and unparse(x.func) == 'getattr') or
+        (isinstance(x, ast.Subscript) and isinstance(x.slice, ast.Slice))
+        for x in roles.expand(ti, y.value, 2))
+    default_sentinel = 'NO_VALUE' in unparse(y.value)
+    ok = not raw and via_api and default_sentinel
+    rs.check(ok, rule_t, f'{ti.qualname}:`{norm_text(ti, y.value, 50)}`',
+             'read through getattr / the positional view, NO_VALUE as the '
+             'last resort' if ok else
+             f'`{unparse(y.value)[:70]}` ' + (
+                 'reads the raw argument store: an unset argument with a '
+                 'default yields NO_VALUE instead of the default' if raw else
+                 'is not read through getattr / the positional view'),
+             ctx.loc(ti, y))
 
   # ---- replace: identity of non-matching nodes
   rule = 'IDENTITY.replace'
